@@ -288,12 +288,17 @@ def gen_table_case(rng, n=None):
         meta['region'].append(['circle', rng.choice([0.0, 123.0]), rng.choice([90.0, 90.0, -90.0]), 2.0])
         meta['depth'] = min(meta['depth'], 9)
     rows = []
+    masked_cols = rng.random() < 0.3      # coordinate columns are MaskedColumns (what readers give for empty cells)
     for k in range(n):
         u = rng.random()
         x, y = rng.uniform(-1, C + 2), rng.uniform(-1, R + 2)
         kind = 'pix'
         if u < 0.12:
             kind = rng.choice(['nan_ra', 'nan_dec', 'nan_both', 'inf_ra', 'inf_dec'])
+        elif u < 0.3 and masked_cols:
+            # a MASKED cell: the value stored under the mask is a perfectly good position (often inside the region)
+            kind = rng.choice(['mask_ra', 'mask_dec', 'mask_both'])
+            x, y = rng.uniform(1, C), rng.uniform(1, R)
         elif u < 0.2 and rows:
             kind = 'dup'
         rows.append([kind, x, y])
@@ -304,9 +309,12 @@ def gen_table_case(rng, n=None):
 def build_table(tc, w):
     from astropy.table import Table
     ras, decs = [], []
+    stored_ra, stored_dec, mask_ra, mask_dec = [], [], [], []
     for kind, x, y in tc['rows']:
         if kind == 'dup':
-            ras.append(ras[0]); decs.append(decs[0]); continue
+            ras.append(ras[0]); decs.append(decs[0])
+            stored_ra.append(stored_ra[0]); stored_dec.append(stored_dec[0]); mask_ra.append(mask_ra[0]); mask_dec.append(mask_dec[0])
+            continue
         s = w.wcs_pix2world([[x, y]], 1)[0]
         ra, dec = float(s[0]), float(s[1])
         if kind in ('nan_ra', 'nan_both'):
@@ -317,16 +325,27 @@ def build_table(tc, w):
             ra = float('inf')
         if kind == 'inf_dec':
             dec = float('-inf')
-        ras.append(ra); decs.append(dec)
+        stored_ra.append(ra); stored_dec.append(dec)
+        mask_ra.append(kind in ('mask_ra', 'mask_both')); mask_dec.append(kind in ('mask_dec', 'mask_both'))
+        # for the oracle and the model a masked coordinate is an undefined one
+        ras.append(float('nan') if mask_ra[-1] else ra); decs.append(float('nan') if mask_dec[-1] else dec)
     n = tc['n']
     import random
     r2 = random.Random(tc['seed'])
     t = Table()
     t['id'] = np.arange(100, 100 + n, dtype=np.int64)
     t['name'] = np.array([f'src{r2.randint(0, 999):03d}' for _ in range(n)], dtype='U6')
-    t[tc['racol']] = np.array(ras, dtype=float)
+    if any(mask_ra) or any(mask_dec):
+        from astropy.table import MaskedColumn
+        t[tc['racol']] = MaskedColumn(np.array(stored_ra, dtype=float), mask=np.array(mask_ra, dtype=bool))
+    else:
+        t[tc['racol']] = np.array(ras, dtype=float)
     t['peak_flux'] = np.array([r2.choice([r2.uniform(-1, 1), float('nan')]) for _ in range(n)], dtype=float)
-    t[tc['deccol']] = np.array(decs, dtype=float)
+    if any(mask_ra) or any(mask_dec):
+        from astropy.table import MaskedColumn
+        t[tc['deccol']] = MaskedColumn(np.array(stored_dec, dtype=float), mask=np.array(mask_dec, dtype=bool))
+    else:
+        t[tc['deccol']] = np.array(decs, dtype=float)
     t['flags'] = np.array([r2.randint(0, 7) for _ in range(n)], dtype=np.int32)
     return t, ras, decs
 
